@@ -393,8 +393,16 @@ fn tamper_point(p: &Point, kind: &str, rng: &mut Rng) -> Point {
     }
 }
 fn tamper_hash(h: &[u8; 32], kind: &str, rng: &mut Rng) -> [u8; 32] {
+    // one alteration family per tamper kind, chosen so that weak comparisons are exposed as well as missing ones:
+    // full replacement, a byte swap and a double bit flip (both keep the XOR / sum of the bytes), a single flip at a random position
     let mut o = *h;
-    match kind { "other" | "offcurve" => { o = b32(&rng.bytes(32)); } "infinity" => { o = [0u8; 32]; } "rerand" => {} _ => { o[5] ^= 0x10; } }
+    match kind {
+        "other" => { o = b32(&rng.bytes(32)); }
+        "offcurve" => { let (i, mut j) = (rng.below(32) as usize, rng.below(32) as usize); while o[j] == o[i] { j = (j + 1) % 32; if j == i { o[j] ^= 1; break; } } o.swap(i, j); }
+        "infinity" => { let (i, j, b) = (rng.below(16) as usize, 16 + rng.below(16) as usize, 1u8 << rng.below(8)); o[i] ^= b; o[j] ^= b; }
+        "rerand" => {}
+        _ => { let i = rng.below(256) as usize; o[i / 8] ^= 0x80 >> (i % 8); }
+    }
     o
 }
 fn hooked<T: Send + 'static>(f: impl FnOnce() -> gm_sm2::error::Sm2Result<T> + Send + 'static, script: Vec<[u8; 32]>) -> (Outcome<T>, Vec<Vec<u8>>) {
